@@ -99,6 +99,24 @@ class _BoundFI:
         self.fi, self.obj = fi, obj
 
 
+class _ModuleDict:
+    """module.__dict__ as a read-only mapping name -> entity."""
+
+    def __init__(self, interp, mod):
+        self.interp, self.mod = interp, mod
+
+    def a_index(self, interp, idx, node):
+        idx = simplify_str(idx)
+        if isinstance(idx, AbsStr) and idx.is_concrete():
+            idx = idx.concrete()
+        if not isinstance(idx, str):
+            raise CannotDecide("module dictionary lookup with %r" % (idx,))
+        r = interp.repo.resolve_name(self.mod, idx)
+        if r is None:
+            raise RaiseEx("KeyError", node)
+        return interp.entity_value(r)
+
+
 class Frame:
     def __init__(self, fi, locals_=None, mod=None, cls=None):
         self.fi = fi
@@ -863,6 +881,8 @@ class Interp:
             if name == "__init__":
                 return ABuiltin("object.__init__")
             raise CannotDecide("super().%s not found" % name)
+        if isinstance(v, AModule) and name == "__dict__":
+            return _ModuleDict(self, v.mod)
         if isinstance(v, AModule):
             r = self.repo.resolve_name(v.mod, name)
             if r is None:
